@@ -12,6 +12,26 @@ Theorem C21_schemas_wf : forallb (fun p => wf_msg (snd p)) all_schemas = true.
 Proof. vm_compute. reflexivity. Qed.
 Print Assumptions C21_schemas_wf.
 
+(* the schema recovered from the CODE of every generated encoder (field order,
+   widths, array sizes, maxlen constants, omitempty) equals the schema derived
+   from the struct definition, modulo in-place flattening of nested structs *)
+Fixpoint code_vs_struct (a b : list (string * msg_schema)) : bool :=
+  match a, b with
+  | [], [] => true
+  | x :: a', y :: b' => String.eqb (fst x) (fst y) && msg_flat_eqb (snd x) (snd y) && code_vs_struct a' b'
+  | _, _ => false
+  end.
+Theorem C21_generated_code_matches_structs : code_vs_struct code_schemas all_schemas = true.
+Proof. vm_compute. reflexivity. Qed.
+Print Assumptions C21_generated_code_matches_structs.
+
+(* likewise for the CODE of every generated decoder: the sequence of reads, the
+   array sizes, every `length > N` maxlen test (operator and constant), the
+   underflow test standing before it, the omitempty shortcut *)
+Theorem C21_generated_decoders_match_structs : code_vs_struct dcode_schemas all_schemas = true.
+Proof. vm_compute. reflexivity. Qed.
+Print Assumptions C21_generated_decoders_match_structs.
+
 (* decode (encode v) = v, for every schema, every value, any trailing bytes *)
 Theorem C21_decode_encode : forall s, wfb s = true ->
   forall v bs rest, encode s v = COk bs -> decode s (bs ++ rest) = COk (v, rest).
